@@ -13,8 +13,10 @@ import (
 )
 
 type ModelObs struct {
-	Class string // ok | err:misuse | error:<driver message>
-	Raw   string
+	Class    string // ok | err:misuse | error:<driver message>
+	Raw      string
+	Print    string // C01: text of the reference printer for the same file (when the case is a GoSyn term)
+	HasPrint bool
 }
 
 var driverCmd []string
@@ -67,7 +69,7 @@ func RunModel(cases []*Case, par int) ([][]ModelObs, error) {
 			defer wg.Done()
 			var in strings.Builder
 			for _, c := range cases[s:e] {
-				in.WriteString(c.Text())
+				in.WriteString(c.DriverText())
 			}
 			lines, err := runDriverLines(in.String())
 			if err != nil {
@@ -88,6 +90,11 @@ func RunModel(cases []*Case, par int) ([][]ModelObs, error) {
 					res[idx] = append(res[idx], ModelObs{Class: "ok", Raw: unesc(l[2:])})
 				case l == "R":
 					res[idx] = append(res[idx], ModelObs{Class: "ok", Raw: ""})
+				case strings.HasPrefix(l, "P "):
+					if n := len(res[idx]); n > 0 {
+						res[idx][n-1].Print = unesc(l[2:])
+						res[idx][n-1].HasPrint = true
+					}
 				case strings.HasPrefix(l, "E "):
 					res[idx] = append(res[idx], ModelObs{Class: "err:" + l[2:]})
 				case strings.HasPrefix(l, "! "):
